@@ -12,8 +12,8 @@ Definition call (p : list stmt) := Call p false [].        (* call, result ignor
    the "labels" of the coverage table (each must be entered in some compared case). *)
 Definition H (n : nat) (b : list stmt) : list stmt := Lbl n :: b.
 
-Definition ctor (op d : list stmt) (owns : list res) : scn := mkscn [] op d owns true false true.
-Definition oper (pre op d : list stmt) (owns : list res) : scn := mkscn pre op d owns true false true.
+Definition ctor (op d : list stmt) (owns : list res) : scn := mkscn [] op d owns true false true [] false.
+Definition oper (pre op d : list stmt) (owns : list res) : scn := mkscn pre op d owns true false true [] false.
 
 (* ================= memory/memory_pool.c =================
    b = memory_pool_data_bufs, b+1 = memory_pool_ptr_buf, b+2 = data_bufs[0],
@@ -229,7 +229,7 @@ Definition trie_insert3 : list stmt :=                     (* key "abc": one nod
   [ Call (node_alloc 10) false (H 48 [RF]); Call (node_alloc 11) false (H 49 [RF]);
     Call (node_alloc 12) false (H 50 [RF]); RO ].
 Definition i_trie_insert3 :=
-  mkscn [call tree_init0] trie_insert3 (tree_destroy 0) [10; 11; 12] true true true.
+  mkscn [call tree_init0] trie_insert3 (tree_destroy 0) [10; 11; 12] true true true [] false.
 
 (* linked_list.c: head/tail linked BEFORE the pool is created *)
 Definition ll_init_orig (q : res) := Mark (q+9) :: pool_part_orig q ++ [RO].
@@ -397,7 +397,7 @@ Definition i_seh_on_read_accept :=
   mkscn [call seh_init; call (evloop_new false epoll_init epoll_destroy); Alloc 95; Alloc 96]
         seh_on_read_accept
         (seh_clear_ctxs 97 ++ seh_destroy ++ evloop_delete epoll_destroy ++ [Free 95; Free 96])
-        ([60; 90] ++ ev_base ++ [32; 33; 95; 96; 97; 98; 12]) false false true.
+        ([60; 90] ++ ev_base ++ [32; 33; 95; 96; 97; 98; 12]) false false true [] false.
 
 (* muggle_socket_evloop_on_wake (cb_wake): a context queued by muggle_socket_evloop_add_ctx is
    registered; when registration fails it is released (closed and freed) on the spot.
@@ -411,7 +411,7 @@ Definition i_seh_on_wake :=
   mkscn [call seh_init; call (evloop_new false epoll_init epoll_destroy); Alloc 95; Alloc 98; call (node_alloc 71)]
         seh_on_wake
         (seh_clear_ctxs 95 ++ seh_destroy ++ evloop_delete epoll_destroy)
-        ([60; 90] ++ ev_base ++ [32; 33; 95; 98; 12]) false true true.
+        ([60; 90] ++ ev_base ++ [32; 33; 95; 98; 12]) false true true [] false.
 
 (* ================= net/socket_evloop_pipe.c : 0, 1 = the two pipe descriptors ================= *)
 Definition i_seh_pipe_init :=
@@ -433,10 +433,87 @@ Definition alog_log : list stmt :=
   [ Alloc 80; IfNull [80] (H 75 [RO]); Use 80;
     Alloc 81; IfNull [81] (H 76 [Free 80; RO]); Use 81;
     Use 3; Free 81; Free 80; RO ].
-Definition i_alog_init_orig := mkscn [] (alog_init_with chan_init_default_orig) alog_destroy [0; 3] true false false.
-Definition i_alog_init := mkscn [] (alog_init_with chan_init_default) alog_destroy [0; 3] true false false.
-Definition i_alog_log_orig := mkscn [call (alog_init_with chan_init_default)] alog_log_orig alog_destroy [0; 3] false false true.
-Definition i_alog_log := mkscn [call (alog_init_with chan_init_default)] alog_log alog_destroy [0; 3] false false true.
+Definition i_alog_init_orig := mkscn [] (alog_init_with chan_init_default_orig) alog_destroy [0; 3] true false false [] false.
+Definition i_alog_init := mkscn [] (alog_init_with chan_init_default) alog_destroy [0; 3] true false false [] false.
+Definition i_alog_log_orig := mkscn [call (alog_init_with chan_init_default)] alog_log_orig alog_destroy [0; 3] false false true [] false.
+Definition i_alog_log := mkscn [call (alog_init_with chan_init_default)] alog_log alog_destroy [0; 3] false false true [] false.
+
+(* ================= boundary contents on the success path =================
+   Containers pre-built with caller-owned values (200.. = blocks allocated by the caller and
+   stored in the container); destroy is called with a free callback, which must release every
+   stored value exactly once.  The contents are chosen to reach code the plain instances never
+   touch: the EMPTY key of a trie (root.children['\0']), a single element, an element inserted
+   at index 0 / at the head, a rejected duplicate, a pool or array that is exactly full at
+   destroy.  A failed operation is retried without faults before destroy ("safe to retry"). *)
+Definition content (pre op d : list stmt) (owns vals : list res) : scn :=
+  mkscn pre op d (owns ++ vals) true false true vals true.
+Definition node_v (n v : res) : stmt := IfSet n [Use n; Free v; Free n; SetNull n].  (* callback(value); free(node) *)
+Definition slot_v (f v : res) : stmt := IfSet f [Free v].                             (* callback(value) of a stored slot *)
+
+(* trie, capacity 0: pre "a" -> node 10 (value 201); op: insert "" -> node 11 = root.children[0] (value 200) *)
+Definition i_trie_content_empty_key :=
+  content [call tree_init0; Alloc 200; Alloc 201; call (node_alloc 10)] (tree_insert 0 11)
+          ([node_v 11 200; node_v 10 201] ++ pool_destroy_part 0) [10; 11] [200; 201].
+(* trie with a node pool of 8: pre "a", "ab" (flags 220, 221); op: insert "" (flag 222), no acquisition *)
+Definition i_trie_content_empty_key_pool :=
+  content [call (tree_init 0); Alloc 200; Alloc 201; Alloc 202; Mark 220; Mark 221] [Use 0; Use 2; Mark 222; RO]
+          ([slot_v 222 200; slot_v 220 201; slot_v 221 202] ++ pool_destroy_part 0) (pool_owns 0) [200; 201; 202].
+(* single element: the only key is "" / the first node of an avl tree / hash table *)
+Definition i_trie_content_single_empty :=
+  content [call tree_init0; Alloc 200] (tree_insert 0 11) ([node_v 11 200] ++ pool_destroy_part 0) [11] [200].
+Definition i_avl_content_single :=
+  content [call tree_init0; Alloc 200] (tree_insert 0 11) ([node_v 11 200] ++ pool_destroy_part 0) [11] [200].
+(* avl: pre 20, 10, 30 and a rejected duplicate 10 (no acquisition); op: insert 5 *)
+Definition i_avl_content :=
+  content [call tree_init0; Alloc 200; Alloc 201; Alloc 202; Alloc 203;
+           call (node_alloc 10); call (node_alloc 11); call (node_alloc 12)] (tree_insert 0 13)
+          ([node_v 13 200; node_v 12 203; node_v 11 202; node_v 10 201] ++ pool_destroy_part 0)
+          [10; 11; 12; 13] [200; 201; 202; 203].
+(* hash table: pre "a", "b" and a rejected duplicate "a"; op: put "c" *)
+Definition ht_destroy_v (l : list stmt) : list stmt := IfSet 21 [Use 20] :: l ++ pool_destroy_part 0 ++ [Free 20].
+Definition i_ht_content :=
+  content [call ht_init0; Alloc 200; Alloc 201; Alloc 202; call (node_alloc 10); call (node_alloc 11)]
+          (Use 20 :: tree_insert 0 12) (ht_destroy_v [node_v 12 200; node_v 11 202; node_v 10 201])
+          [20; 10; 11; 12] [200; 201; 202].
+Definition i_ht_content_single :=
+  content [call ht_init0; Alloc 200] (Use 20 :: tree_insert 0 12) (ht_destroy_v [node_v 12 200]) [20; 12] [200].
+(* linked list / queue: pre two elements; op: insert at the head / enqueue *)
+Definition list_destroy_v (l : list stmt) : list stmt := IfNull [9] [Stuck] :: l ++ pool_destroy_part 0.
+Definition i_ll_content_head :=
+  content [call (ll_init0 0); Alloc 200; Alloc 201; Alloc 202; call (node_alloc 10); call (node_alloc 11)]
+          (tree_insert 0 12) (list_destroy_v [node_v 12 200; node_v 10 201; node_v 11 202]) [10; 11; 12] [200; 201; 202].
+Definition i_queue_content :=
+  content [call (ll_init0 0); Alloc 200; Alloc 201; Alloc 202; call (node_alloc 10); call (node_alloc 11)]
+          (tree_insert 0 12) (list_destroy_v [node_v 10 201; node_v 11 202; node_v 12 200]) [10; 11; 12] [200; 201; 202].
+(* node pool of exactly two nodes, both in use at destroy: no growth, no acquisition in the op *)
+Definition i_ll_content_pool_full :=
+  content [call (ll_init 0); Alloc 200; Alloc 201; Mark 220] [Use 0; Use 2; Mark 221; RO]
+          (list_destroy_v [slot_v 220 201; slot_v 221 200]) (pool_owns 0) [200; 201].
+Definition i_queue_content_pool_full :=
+  content [call (queue_init 0); Alloc 200; Alloc 201; Mark 220] [Use 0; Use 2; Mark 221; RO]
+          (list_destroy_v [slot_v 220 201; slot_v 221 200]) (pool_owns 0) [200; 201].
+(* arrays: capacity 4; op stores the element that makes the array exactly full (index 0 / top) *)
+Definition arr_destroy_v (l : list stmt) (d : list stmt) : list stmt := Use 0 :: l ++ d.
+Definition i_array_list_content_index0_full :=
+  content [call arr_init; Alloc 200; Alloc 201; Alloc 202; Alloc 203; Mark 220; Mark 221; Mark 222]
+          [Use 0; Mark 223; RO]
+          (arr_destroy_v [slot_v 223 200; slot_v 220 201; slot_v 221 202; slot_v 222 203] arr_destroy) [0] [200; 201; 202; 203].
+Definition i_stack_content_full :=
+  content [call arr_init; Alloc 200; Alloc 201; Alloc 202; Alloc 203; Mark 220; Mark 221; Mark 222]
+          [Use 0; Mark 223; RO]
+          (arr_destroy_v [slot_v 220 201; slot_v 221 202; slot_v 222 203; slot_v 223 200] arr_destroy) [0] [200; 201; 202; 203].
+(* arrays already full with four values: op stores a fifth at index 0 / in the heap and grows *)
+Definition arr_store_grow : list stmt := [ Call arr_ensure false (H 42 [RF]); Use 0; Mark 224; RO ].
+Definition i_array_list_content_index0_grow :=
+  content [call arr_init; Alloc 200; Alloc 201; Alloc 202; Alloc 203; Alloc 204; Mark 220; Mark 221; Mark 222; Mark 223]
+          arr_store_grow
+          (arr_destroy_v [slot_v 224 200; slot_v 220 201; slot_v 221 202; slot_v 222 203; slot_v 223 204] arr_destroy)
+          [0] [200; 201; 202; 203; 204].
+Definition i_heap_content_grow :=
+  content [call arr_init; Alloc 200; Alloc 201; Alloc 202; Alloc 203; Alloc 204; Mark 220; Mark 221; Mark 222; Mark 223]
+          arr_store_grow
+          (arr_destroy_v [slot_v 220 201; slot_v 221 202; slot_v 222 203; slot_v 223 204; slot_v 224 200] arr_destroy_g)
+          [0] [200; 201; 202; 203; 204].
 
 (* ================= table used by the drivers (id -> scenario) ================= *)
 Definition inst_table : list (nat * scn) :=
@@ -458,6 +535,11 @@ Definition inst_table : list (nat * scn) :=
     (54, i_mpool_alloc_grow_capped); (55, i_evloop_add_ctx_poll); (56, i_evloop_add_ctx_select);
     (57, i_evloop_add_ctx_pool_grow); (58, i_seh_pipe_init); (59, i_seh_on_read_accept);
     (60, i_seh_on_wake); (61, i_chan_rmutex);
+    (62, i_trie_content_empty_key); (63, i_trie_content_empty_key_pool); (64, i_trie_content_single_empty);
+    (65, i_avl_content); (66, i_avl_content_single); (67, i_ht_content); (68, i_ht_content_single);
+    (69, i_ll_content_head); (70, i_ll_content_pool_full); (71, i_queue_content); (72, i_queue_content_pool_full);
+    (73, i_array_list_content_index0_full); (74, i_array_list_content_index0_grow); (75, i_heap_content_grow);
+    (76, i_stack_content_full);
     (* transcriptions of the unchanged (defective) code *)
     (100, i_chan_mutex_orig); (103, i_ma_ring_orig); (104, i_dbuf_orig); (109, i_sowr_orig);
     (110, i_ts_orig); (118, i_avl_init_orig); (121, i_ht_init_orig); (126, i_ll_init_orig);
@@ -491,5 +573,9 @@ Definition op_labels_of (id : nat) : list nat :=
   match inst_by_id id with Some sc => op_labels sc | None => [] end.
 Definition inst_ids : list nat := map fst inst_table.
 
+Definition nvals_of (id : nat) : nat :=
+  match inst_by_id id with Some sc => length (s_values sc) | None => 0 end.
+Definition retry_of (id : nat) : bool :=
+  match inst_by_id id with Some sc => s_retry sc | None => false end.
 Definition dfail_of (id : nat) : bool :=
   match inst_by_id id with Some sc => s_dfail sc | None => false end.
